@@ -223,11 +223,23 @@ impl<W: 'static, R: 'static, T: 'static> XGenerator<W, R, T> {
             }),
             Self::Repeat(gen) => either_i({
                 let gen = to_native!(gen, Self);
-                iter::repeat_with(move || {
-                    let inner: BIter<_, _, _> = Box::new(gen._iter(ns, rt.clone()));
-                    inner
+                let mut inner: Option<BIter<_, _, _>> = None;
+                let mut yielded = false;
+                iter::from_fn(move || loop {
+                    let pass = inner.get_or_insert_with(|| {
+                        yielded = false;
+                        Box::new(gen._iter(ns, rt.clone()))
+                    });
+                    match pass.next() {
+                        Some(item) => {
+                            yielded = true;
+                            return Some(item);
+                        }
+                        // a pass that yields nothing means the generator is empty, and so is its repetition
+                        None if !yielded => return None,
+                        None => inner = None,
+                    }
                 })
-                .flatten()
             }),
             Self::TakeWhile(gen, func) => either_j({
                 let inner: BIter<_, _, _> = Box::new(to_native!(gen, Self)._iter(ns, rt.clone()));
